@@ -6,6 +6,9 @@ x asset assignments x page wrapper (none / html+head+body / explicit placeholder
 x {document, fragment}.
 Space B: programs with <= 2 nodes x all 5x5 asset assignments x all class-name pairs
 (Plain, with_underscore9, non-ASCII names, the same __name__ in two modules).
+Space P: every program with <= 3 (thorough 4) nodes with every component tag that is a direct child of a template moved into a
+non-element position (HTML comment, attribute value, <textarea>) - the nested component is rendered there all the
+same, so its assets are due.
 Delivery paths: Template.render + render_dependencies(html, type); the middleware on an
 HttpResponse (document); Component.render(type=...) for single-component pages - they must
 agree.
@@ -63,8 +66,8 @@ WRAPPERS = ("none", "html", "placeholders", "html+css_placeholder", "html+js_pla
 
 def bounds(tier):
     if tier == "thorough":
-        return {"A": [("assets", B, 5, 0)], "A_iso": [("assets", B, 4, 0)], "B_N": 3}
-    return {"A": [("assets", B, 4, 0)], "A_iso": [("assets", B, 3, 0)], "B_N": 2}
+        return {"A": [("assets", B, 5, 0)], "A_iso": [("assets", B, 4, 0)], "B_N": 3, "P_N": 4}
+    return {"A": [("assets", B, 4, 0)], "A_iso": [("assets", B, 3, 0)], "B_N": 2, "P_N": 3}
 
 
 def make_spec(name, template):
@@ -338,6 +341,29 @@ def run_case(prog, mode, combo, names, agg, h):
     unregister_all(classes)
 
 
+# positions in which a `{% component %}` tag is NOT an element child: the nested component is rendered all the same, so its assets are due
+POSITIONS = {"comment": ("<!-- ", " -->"), "attr": ('<i title="', '"></i>'), "textarea": ("<textarea>", "</textarea>")}
+
+
+def reposition(prog, pos):
+    """every component tag that is a direct child of a template (page or component) is wrapped in the text of a non-element position"""
+    from mc.prog import Program
+
+    pre, post = POSITIONS[pos]
+
+    def wrap_top(nodes):
+        out = []
+        for n in nodes:
+            if n[0] == "Comp":
+                out += [("T", pre), n, ("T", post)]
+            else:
+                out.append(n)
+        return tuple(out)
+
+    comps = {name: make_spec(name, wrap_top(c.template) if c.template else c.template) for name, c in prog.comps.items()}
+    return Program(wrap_top(prog.page), comps, dict(prog.ctx))
+
+
 def case_of(prog, mode, combo, names, wrapper):
     return {"mode": mode, "combo": list(combo), "names": list(names), "wrapper": wrapper, "program": prog.to_json(mode), "spec": prog_spec(prog)}
 
@@ -353,6 +379,18 @@ def worker(w, W, payload):
     for prog in gen.programs(N, make_spec, {}):
         i += 1
         if i % W != w:
+            continue
+        if space == "P":
+            # component tags inside an HTML comment / an attribute value / a <textarea>
+            if not any(n[0] == "Comp" for t in [prog.page] + [c.template or () for c in prog.comps.values()] for n in t):
+                continue
+            for pos in POSITIONS:
+                agg.states += 1
+                prog2 = reposition(prog, pos)
+                for combo in ((3, 1), (1, 3), (2, 4)):
+                    agg.nontrivial += 1
+                    agg.expected["position:%s" % pos] += 1
+                    run_case(prog2, mode, combo, NAMES[0], agg, h)
             continue
         agg.states += 1
         if space == "A":
@@ -378,6 +416,7 @@ def run(ctx):
     run_parts(ctx, worker, b["A"], modes=("django",), extra_payload="A")
     run_parts(ctx, worker, b["A_iso"], modes=("isolated",), extra_payload="A")
     run_parts(ctx, worker, [("names", B, b["B_N"], 0)], modes=("django",), extra_payload="B")
+    run_parts(ctx, worker, [("positions", B, b["P_N"], 0)], modes=("django", "isolated"), extra_payload="P")
     ev.assumptions = ["static URLs are /static/<file> (STATIC_URL='static/', no manifest storage)",
                       "media cache cleared between cases because generated classes reuse import paths (two live classes with one import path are excluded)"]
 
